@@ -48,12 +48,14 @@ CLAIMED = {
    text="Theorems (Properties/C15.v): one interpreter step - any opcode, stack, flags, script version, in the script or through exec - never yields "
         "one of the model's crash outcomes (failed assertion incl. the default branches of the numeric and extended-opcode switches, dangling script "
         "iterator, division by zero, undefined shift, signed overflow) from an environment whose pbegincodehash is live and whose tapscript weight "
-        "is initialised; sessions start in such an environment; session configuration never indexes outside the funding transaction once input "
+        "is initialised; that environment is preserved by every step; sessions start in it; and ANY sequence of step / rewind / exec commands from a "
+        "session start never ends a command in a crash outcome (C15_commands_never_crash: the invariant also covers every history snapshot rewind "
+        "can restore); session configuration never indexes outside the funding transaction once input "
         "selection succeeded. Memory safety itself is not expressible in the executable model: the runtime part rebuilds the tree with "
         "AddressSanitizer+UndefinedBehaviorSanitizer and runs the inputs of every other property plus structure-aware mutations through the harness, "
         "fuzzes the command lines of btcc/tap/btcdeb (pipes and pty) and interactive command sequences; thorough adds valgrind memcheck. Any signal, "
         "sanitizer report, failed assertion or uncaught exception is a violation with the input as replay.",
-   note=TB + "PARTIAL by nature: the theorems cover the model's explicit crash outcomes (preservation of the 'safe' environment across steps is not yet proved); out-of-bounds / use-after-free / uninitialised reads are decided by sanitizer runs (testing, not proof) as the brief allows for runtime behaviour.",
+   note=TB + "PARTIAL by nature: the theorems cover the model's explicit crash outcomes out-of-bounds / use-after-free / uninitialised reads are decided by sanitizer runs (testing, not proof) as the brief allows for runtime behaviour.",
    technique="Coq proof of crash-outcome unreachability in the model + sanitizer/valgrind execution of generated and mutated inputs",
    ref="DESIGN.md §2 C15"),
  "C11": dict(
